@@ -114,9 +114,18 @@ func runC07(r *Run, rng *Rng, thorough bool) {
 					panic(err)
 				}
 			}
+			// a registration that is refused (no identifiable profile field; a name already taken) registers nothing:
+			// the names stay unregistered for NewClaims and for both decoders
+			refused := fmt.Sprintf("http://example.com/psa/refused/%d", round)
+			refusedErr := psa.RegisterProfile(NoTagProfile{Name: refused})
+			_ = psa.RegisterProfile(ExtProfile{Name: psa.Profile2Name, Base: 1})
 			regp := rs.proto()
 			// NewClaims(p) reports p
-			names := []string{psa.Profile1Name, psa.Profile2Name, "", "http://example.com/unregistered", "PSA_IOT_PROFILE_2"}
+			names := []string{psa.Profile1Name, psa.Profile2Name, "", "http://example.com/unregistered", "PSA_IOT_PROFILE_2", refused}
+			if refusedErr == nil {
+				r.ImplOnly("refused-registration", false, "register no-tag profile "+refused)
+				r.Fail("unknown-profile-error", "RegisterProfile of a claims type without a profile field succeeded")
+			}
 			for _, e := range rs.extras {
 				names = append(names, e.Name)
 			}
@@ -176,6 +185,7 @@ func runC07(r *Run, rng *Rng, thorough bool) {
 						{"profile-absent", profKey, nil, jn, nil, ""},
 						{"profile-null", profKey, nNull(), jn, jN(), ""},
 						{"profile-unknown", profKey, nTstr("http://example.com/unregistered"), jn, jS("http://example.com/unregistered"), "!unknown"},
+						{"profile-refused-registration", profKey, nTstr(refused), jn, jS(refused), "!unknown"},
 						{"profile-other", profKey, nTstr(canonOf(3 - p)), jn, jS(canonOf(3 - p)), "?"},
 						{"other-key-too", otherKey, nTstr(canonOf(3 - p)), jo, jS(canonOf(3 - p)), "?"},
 						{"other-key-null", otherKey, nNull(), jo, jN(), d.Canon},
